@@ -18,7 +18,7 @@ from . import formats, readcamp as R, scripts as S, abscheck
 LE, BE = 0x10000000, 0x20000000
 KF_NARROW = "KF-C18-DOUBLE-NARROW"
 KF_STAGING = "KF-C18-STAGING-MISALIGN"
-KF_TINY = "KF-C18-TINY-FLUSH"
+KF_TINY = "KF-C18-PEAK-SUBNORMAL"      # what is left of KF-C18-TINY-FLUSH since the IEEE-writer repair (that entry's witness is a regression test now)
 KF_CALC_RW = "KF-C18-CALC-RDWR-BLOCK"
 TINY = Fraction(1e-30)       # the double constant of src/float32.c:316/351, exactly
 TIMESTAMP = 1000000000
@@ -568,7 +568,8 @@ def check_peak_job(job, obs, calls=None):
         # the chunk field is a binary32 (PEAK chunk definition): a DOUBLE maximum is stored rounded to nearest even;
         # float32_le_write / float32_be_write leave 0 for |x| < FLT_MIN (zero and binary32 subnormals): class "peak-tiny"
         r32 = f32b(b2f64(d))
-        tiny = m > 0 and r32 < 0x00800000
+        # a maximum that rounds to 0 in binary32 is correctly stored as 0 (no finding); one whose binary32 is subnormal is flushed (KF_TINY)
+        tiny = m > 0 and 0 < (r32 & 0x7FFFFFFF) < 0x00800000
         st32 = 0 if tiny else r32
         exp_r.append(widen(st32))
         if "vals" in obs and len(obs["vals"]) == ch:
